@@ -110,6 +110,11 @@ void EGLPNUM_TYPENAME_ILLsimplex_init_lpinfo (
 {
 	EGLPNUM_TYPENAME_ILLbasis_init_basisinfo (lp);
 	EGLPNUM_TYPENAME_init_internal_lpinfo (lp);
+	/* queried by QSget_objval / QSget_infeas_array even before the first solve */
+	memset (&(lp->probstat), 0, sizeof (lp->probstat));
+	memset (&(lp->basisstat), 0, sizeof (lp->basisstat));
+	lp->final_phase = -1;
+	lp->infub_ix = -1;
 }
 
 void EGLPNUM_TYPENAME_ILLsimplex_free_lpinfo (
